@@ -766,12 +766,23 @@ func init() {
 			var keys []tx.PrevOut
 			var vals []uint64
 			for j := 0; j < n; j++ {
-				t, k, v := r.feeTxCase(0)
-				b.Transactions = append(b.Transactions, t)
-				if j > 0 {
-					keys = append(keys, k...)
-					vals = append(vals, v...)
+				// plain transactions with distinct outpoints and a modest fee each, so that every block
+				// statistic is defined
+				t, _ := r.genTx(2, 2)
+				var outSum uint64
+				for _, o := range t.Outputs {
+					o.Value = uint64(1000 + r.rng.Intn(1<<30))
+					outSum += o.Value
 				}
+				for i, in := range t.Inputs {
+					copy(in.PrevOut.Hash[:], r.bytesN(32))
+					in.PrevOut.Index = uint32(i)
+					if j > 0 {
+						keys = append(keys, *in.PrevOut)
+						vals = append(vals, outSum/uint64(len(t.Inputs))+1+uint64(r.rng.Intn(100000)))
+					}
+				}
+				b.Transactions = append(b.Transactions, t)
 			}
 			r.Do("fee.block", []string{hx(b.Bytes()), tableArg(keys, vals)}, "fee-block-count-boundary", true, fmt.Sprintf("%d transactions", n))
 		}
